@@ -81,7 +81,7 @@ func runC18Case(c *c18Case, st *stats, idx int) {
 	tr := raft.NewTransport(1, "sim-1", conn)
 	alloc := storage.NewAllocator(conn)
 	g := &tailGroup{}
-	dm, err := storage.NewDatasetManager(g, memBadger(), tr, conn, alloc)
+	dm, err := storage.NewDatasetManager(g, sharedBadger(), tr, conn, alloc)
 	if err != nil {
 		st.ImplFailures = append(st.ImplFailures, implFailure{Case: idx, What: err.Error(), Key: "setup-error", Input: *c})
 		return
@@ -224,11 +224,11 @@ func c18Scripts(r *rng, n int) []c18Case {
 		c18Op{Kind: "node-add", Node: 3}, c18Op{Kind: "node-remove", Node: 2}, c18Op{Kind: "create", Ds: 2, Self: false, Repl: 1, Parts: 3}, c18Op{Kind: "delete", Ds: 0})
 	var burst []c18Op
 	burst = append(burst, c18Op{Kind: "create", Ds: 0, Self: true, Repl: 2, Parts: 1})
-	for i := uint64(2); i <= 16; i++ {
+	for i := uint64(2); i <= 41; i++ {
 		burst = append(burst, c18Op{Kind: "node-add", Node: i})
 	}
 	burst = append(burst, c18Op{Kind: "create", Ds: 1, Self: true, Repl: 2, Parts: 1})
-	cs = append(cs, c18Case{Backlog: burst, Note: "more membership changes than the notification channel holds, around dataset creation"})
+	cs = append(cs, c18Case{Backlog: burst, Note: "forty membership changes (more than any bounded channel or backlog in the path holds) around dataset creation"})
 	for len(cs) < n {
 		var ops []c18Op
 		ln := 4 + r.intn(14)
@@ -298,7 +298,7 @@ func runC18(a *args) error {
 		quietRounds = 120 // long enough for the partition groups to elect, so that every proposal of the allocator is made
 	}
 	r := newRng(a.seed)
-	st := newStats("backlogs of membership notifications (Conn.AddNode / RemoveNode as the zero group applies them) and catalogue entries (create / delete through DatasetManager.process) fed by one goroutine to a real Conn + Allocator (loop running) + DatasetManager; the allocator's own proposals are queued behind the backlog; scripted restarts (members then datasets, datasets then churn, a burst of 15 joins around creations) plus generated backlogs of 4..17 entries; watchdog 25 s; non-trivial = backlog mixes both kinds and the allocator made >= 1 proposal; distinct by hash of the backlog")
+	st := newStats("backlogs of membership notifications (Conn.AddNode / RemoveNode as the zero group applies them) and catalogue entries (create / delete through DatasetManager.process) fed by one goroutine to a real Conn + Allocator (loop running) + DatasetManager; the allocator's own proposals are queued behind the backlog; scripted restarts (members then datasets, datasets then churn, a burst of 40 joins around creations) plus generated backlogs of 4..17 entries; watchdog 25 s; non-trivial = backlog mixes both kinds and the allocator made >= 1 proposal; distinct by hash of the backlog")
 	var cases []c18Case
 	if a.replay != "" {
 		var c c18Case
